@@ -18,8 +18,8 @@ NA = {
 
 CLAIMS = {
     'C01': dict(
-        text="Deductive proof (Verus) over the real transform, try_apply_op, apply_op, apply_version, snapshot functions and sync: for every base state the rebase theorem holds on apply_version's nested loops; sync re-establishes the documented replica invariant with nothing pending and the transaction committed, against a Server contract in which the chain may grow inside every call; batches always hold at least one operation and are cut from the rebased operations. History lemmas over those contracts give: every replica at the head with nothing pending holds exactly the replay of the server's versions. Unbounded in replicas, operations, values, batch count.",
-        note="Trusted: prelude stand-ins (uuid, chrono, HashMap<String,String>, String equality), serde_json/flate2 round trips (A6), StorageTxn contract for SQLite (A8), Server contract as rely condition. Valid-when-made operations (X3). Partial correctness (no termination claim)."),
+        text="Deductive proof (Verus) over the real transform, try_apply_op, apply_op, apply_version, snapshot functions and sync: for every base state the rebase theorem holds on apply_version's nested loops; sync re-establishes the documented replica invariant with nothing pending and the transaction committed, against a Server contract in which the chain may grow inside every call; batches always hold at least one operation and are cut from the rebased operations. History lemmas over those contracts give: every replica at the head with nothing pending holds exactly the replay of the server's versions. Replica::sync (then the working set is rebuilt without renumbering) is verified over the TaskDb wrappers. Unbounded in replicas, operations, values, batch count.",
+        note="Trusted: prelude stand-ins (uuid, chrono, HashMap<String,String>, String equality), serde_json/flate2 round trips (A6), StorageTxn contract for SQLite (A8), Server contract as rely condition. Valid-when-made operations (X3). Partial correctness (no termination claim). Replica level: assumption A9 (a Storage holds one committed content; the three-line TaskDb wrappers are hashed glue)."),
     'C02': dict(
         text="Same proof of sync against the rely/guarantee Server contract (other replicas' versions may be accepted before every request is served): after a rejected add_version the loop invariant is about the already rebased local operations, so what is re-sent is their rebase over every version pulled in this call; Err(OutOfSync) is proved unreachable; every Err leaves the transaction uncommitted.",
         note="Interleavings at request granularity; liveness of the retry loop not claimed; the server is assumed to retain all versions at or after the replica's base and never to return OutOfSync itself. Same trusted base as C01."),
@@ -30,10 +30,10 @@ CLAIMS = {
         text="Proof over sync/apply_version/try_apply_op with fallible StorageTxn and Server contracts (any call may fail; add_version may have been carried out although it returned an error): every Err return leaves the transaction uncommitted and commit is the last effect; storage errors while applying server operations propagate (only invalid operations are ignored); the replica invariant is monotone in the chain, so the stored replica still satisfies it after an interruption and the next sync starts from its precondition; OutOfSync unreachable; identical operations cancel pairwise.",
         note="'Uncommitted leaves no trace' is proved for the in-memory store (unit inmemory) and assumed for SQLite (C06 not applicable). The full 'own version received back yields no pending operations' lemma over the loops is not proved (only the pairwise cancellation)."),
     'C05': dict(
-        text="Proof that the real apply_operations (cache, Entry API, flush loop) equals one-at-a-time application under the documented rules for every batch and prior state, valid or not; TaskDb::commit_operations appends the operations in order, is all-or-nothing (Err leaves the transaction uncommitted) and commits last; the replica invariant is preserved by local commits.",
+        text="Proof that the real apply_operations (cache, Entry API, flush loop) equals one-at-a-time application under the documented rules for every batch and prior state, valid or not; TaskDb::commit_operations appends the operations in order, is all-or-nothing (Err leaves the transaction uncommitted) and commits last; the replica invariant is preserved by local commits. Replica::commit_operations: empty batch changes nothing; otherwise tasks as applied one at a time and all-or-nothing.",
         note="End to end for the in-memory store (unit inmemory proves the storage contract); SQLite side assumed (A8). HashMap<Uuid,_> per vstd's model."),
     'C07': dict(
-        text="Proof over the real reverse_ops, commit_reversed_operations and get_undo_operations: for accurate operations the reversal restores exactly the prior task set (Delete restored from drained old_task pairs in any order); the given operations must be the tail of the unsynchronized list, exactly they are removed and the transaction committed, otherwise nothing changes and false is returned; only unsynchronized operations are ever offered for undo.",
+        text="Proof over the real reverse_ops, commit_reversed_operations and get_undo_operations: for accurate operations the reversal restores exactly the prior task set (Delete restored from drained old_task pairs in any order); the given operations must be the tail of the unsynchronized list, exactly they are removed and the transaction committed, otherwise nothing changes and false is returned; only unsynchronized operations are ever offered for undo. Replica::{get_undo_operations, commit_reversed_operations}: on success the working set is rebuilt without renumbering, on mismatch nothing changes.",
         note="'accurate' (recorded old values are what the state held) is the precondition C19 establishes. Trusted: prelude, StorageTxn contract."),
     'C08': dict(
         text="Proof that LocalServer::{add_version,get_child_version,get_snapshot} implement the sequential Server chain protocol over a ghost {latest, rows} database behind the SQL helper methods: accept iff parent is latest or none exists, reject naming latest and write nothing, return the stored child, NoSuchVersion for an unknown parent.",
@@ -51,11 +51,11 @@ CLAIMS = {
         text="Proof that from_op maps Create/Delete/Update to exactly the documented fields and UndoPoint to nothing, that the real SyncOp carries nothing beyond the documented wire fields (wire view injective: an added field fails the lemma), and that sync sends, in order, prefixes of the rebased operations derived from the unsynchronized list.",
         note="TYPE-LEVEL HALF ONLY: the JSON text, RFC 3339 rendering and acceptance of other implementations' documents are serde/chrono code behind derive macros and are not decided (assumption A6)."),
     'C15': dict(
-        text="Proof over the real working_set::rebuild (scan, append, zip write-back, shrink and grow loops, arbitrary pure predicate): afterwards index 0 is empty, a task is listed iff it exists and satisfies the predicate, exactly once; without renumbering survivors keep their index and newcomers come after all old indexes; with renumbering entries are gap-free in the old relative order; committed. TaskDb::commit_operations appends newly pending tasks at the end without moving others.",
+        text="Proof over the real working_set::rebuild (scan, append, zip write-back, shrink and grow loops, arbitrary pure predicate): afterwards index 0 is empty, a task is listed iff it exists and satisfies the predicate, exactly once; without renumbering survivors keep their index and newcomers come after all old indexes; with renumbering entries are gap-free in the old relative order; committed. TaskDb::commit_operations appends the tasks of the flagged operations, and only those, at the end without moving others. Replica level: the predicates actually passed are proved to be 'status is pending or recurring' (rebuild) and 'status changes from neither to one of them' (commit); Replica::sync and undo rebuild without renumbering.",
         note="Write-back is proved against the StorageTxn contract (trailing blanks trimmed, add appends at highest index + 1), proved for in-memory, assumed for SQLite. Old working set assumed duplicate-free (storage invariant)."),
     'C16': dict(
-        text="Proof that every in-reach method of the in-memory Txn satisfies the documented StorageTxn contract (return values included), that commit copies the transaction's data into the store and that a dropped transaction changes nothing.",
-        note="IN-MEMORY HALF ONLY. The SQLite implementation, reopen/persistence, schema upgrade and read-only mode are SQL in a C library and are not covered."),
+        text="Proof that 19 of the 20 StorageTxn methods of the in-memory Txn (all but get_pending_tasks) satisfy the StorageTxn contract, return values included: listings are exactly the stored tasks/uuids, get_task_operations returns the task's operations oldest first, sync_complete marks everything synced and drops exactly the history of tasks that no longer exist (the SQLite store's two statements); commit copies the transaction's data into the store and a dropped transaction changes nothing.",
+        note="IN-MEMORY HALF ONLY. Iterator chains are verified as the loops they denote (rule R26). The SQLite implementation, reopen/persistence, schema upgrade and read-only mode are SQL in a C library and are not covered."),
     'C18': dict(
         text="Kani proves for every i64 that the checked timestamp conversion used by the read accessors (utc_timestamp_opt in the unmodified src/task/time.rs) never panics; Verus proves panic-freedom (its default obligations: no unwrap on None, no index out of bounds, no arithmetic overflow, no unreachable) for the extracted read functions.",
         note="Iterator-returning getters built from lazy closures over HashMap iterators (get_tags, get_dependencies), DependencyMap and Replica read methods are outside reach. String kernels (Tag::from_str) are bounded Kani harnesses, labelled bounded."),
@@ -63,8 +63,8 @@ CLAIMS = {
         text="Proof over TaskData::{create,update,delete} and the core Task mutators: exactly the documented operations are recorded, each Update carries the value the property really had, the object's map changes accordingly; set_value refreshes `modified` once per editing session and never when set explicitly; set_status adds/removes `end` as documented.",
         note="CORE RULES ONLY: tag/annotation/dependency/UDA key formatting and parsing, synthetic tags and Replica::dependency_map are not covered."),
     'C20': dict(
-        text="Synchronization half: a synchronized Delete wins over concurrent updates of the task whoever syncs first (contract of transform + rebase theorem), every replica's state is the replay of the chain after sync, and a deleted task does not come back unless a later Create does it.",
-        note="SYNC HALF ONLY: which tasks Replica::expire_tasks selects (status deleted, modified more than 180 days ago, unreadable times kept) is not decided."),
+        text="Proof over the real Replica::expire_tasks and all_task_data: the batch handed to commit_operations consists of exactly one Delete (carrying the whole old task) for every stored task whose status is deleted and whose `modified` is an integer inside the calendar range and earlier than now - 180 days, and of nothing else (missing, non-numeric or out-of-range times keep the task); it is committed as one ordinary batch. Synchronization half: a synchronized Delete wins over concurrent updates whoever syncs first (contract of transform + rebase theorem) and every replica's state is the replay of the chain.",
+        note="chrono, str::parse and the clock are trusted stand-ins (A2: DateTime is a nanosecond count, from_timestamp is Some exactly on chrono's range, one clock reading per call). The drain/filter/for_each chain and the is_some_and/is_ok_and nest are verified as the loop and matches they denote (rules R5, R26, R29). The two halves are not composed into one multi-replica statement."),
 }
 
 engines_props = sorted(cfg['properties'].keys())
